@@ -139,7 +139,13 @@ DECIDERS = {'q_ge': decide_q_ge, 'q_lt': decide_q_lt, 'all': decide_all}
 
 
 class GiveWrap:
-    '''Instance-level observer around a device's give_part (behaviour unchanged).'''
+    '''Instance-level observer around a device's give_part (behaviour unchanged).
+
+    Appends to hub.gives (indexed, with the index of the enclosing give_part call)
+    and, on completion, to hub.tlog:
+      ('gave', index, parent, receiver, part id, leaf ids, accepted, is_batch,
+       value at call, quality at call, receiver blocked at call)
+    '''
 
     def __init__(self, hub, dev):
         self.hub = hub
@@ -151,15 +157,21 @@ class GiveWrap:
         parent = hub.stack[-1] if hub.stack else -1
         hub.gives.append(None)
         hub.stack.append(idx)
-        pid = part.id if part is not None else None
-        lv = tuple(leaves(part))
+        if part is not None:
+            pid, lv, isb, val, q = part.id, tuple(leaves(part)), isinstance(part, Batch), part.value, part.quality
+        else:
+            pid, lv, isb, val, q = None, (), False, 0, None
+        blocked = bool(self.dev._block_input)
         try:
             r = type(self.dev).give_part(self.dev, part)
         finally:
             hub.stack.pop()
-        hub.gives[idx] = (parent, self.dev.name, pid, lv, bool(r))
+        rec = ('gave', idx, parent, self.dev.name, pid, lv, bool(r), isb, val, q, blocked)
+        hub.gives[idx] = rec
+        hub.tlog.append(rec)
         if r and isinstance(self.dev, Sink) and not hub.probing:
             hub.delivered.setdefault(self.dev.name, []).extend(lv)
+            hub.delivered_items.setdefault(self.dev.name, []).append(pid)
         return r
 
 
@@ -182,6 +194,7 @@ class Hub:
         self.probing = False
         self.actor = None
         self.delivered = {}
+        self.delivered_items = {}
         self.lost = []
 
     def begin(self, actor):
@@ -195,7 +208,7 @@ class Hub:
         self.tlog.append(('received', dev.name, part.id, tuple(leaves(part)), part.quality, part.value))
 
     def on_finish(self, dev, part):
-        self.tlog.append(('finished', dev.name, part.id, tuple(leaves(part))))
+        self.tlog.append(('finished', dev.name, part.id, tuple(leaves(part)), part.quality, part.value))
 
     def on_shutdown(self, dev, is_failure, part):
         self.tlog.append(('shutdown', dev.name, bool(is_failure), part.id if part is not None else None))
@@ -224,14 +237,16 @@ class Probe3:
 class AutoRepair:
     '''Shutdown callback that requests a work order after a failure, as the examples do.'''
 
-    def __init__(self, world, tag):
-        self.world = world
+    def __init__(self, devs, hub, tag):
+        self.devs = devs        # name -> asset (the maintainer is created later, looked up at call time)
+        self.hub = hub
         self.tag = tag
 
     def __call__(self, dev, is_failure, part):
         if is_failure:
-            r = self.world.maintainer.create_work_order(dev, self.tag)
-            self.world.hub.tlog.append(('wo_request', dev.name, self.tag, bool(r)))
+            mt = [a for a in self.devs.values() if isinstance(a, Maintainer)][0]
+            r = mt.create_work_order(dev, self.tag)
+            self.hub.tlog.append(('wo_request', dev.name, self.tag, bool(r)))
 
 
 class CycleByOrdinal:
@@ -312,6 +327,11 @@ class LineWorld:
             self._enter()
             self._init_like_simulate()
             self._leave()
+
+    def __getstate__(self):
+        d = dict(self.__dict__)
+        d.pop('_saved', None)
+        return d
 
     # ------------------------------------------------------------------ globals
     def _enter(self):
@@ -398,7 +418,7 @@ class LineWorld:
                     o.add_shutdown_callback(p.shutdown)
                     o.add_restored_callback(p.restored)
                 if d.get('auto_repair') is not None:
-                    o.add_shutdown_callback(AutoRepair(self, d['auto_repair']))
+                    o.add_shutdown_callback(AutoRepair(self.dev, self.hub, d['auto_repair']))
         self.n_static = Asset._id_counter
         # observers around every give_part
         for a in self.system._assets:
@@ -417,6 +437,16 @@ class LineWorld:
         env._terminated = False
         env._trace = False
         env.schedule_event(env.now + self.horizon, -1, env._terminate, EventType.TERMINATE)
+
+    def fork(self):
+        '''Independent copy of the whole world (used by monitors that probe "what if").'''
+        import pickle
+        step = self.env.__dict__.pop('step', None)     # E2 instance override is a closure
+        try:
+            return pickle.dumps(self, pickle.HIGHEST_PROTOCOL)
+        finally:
+            if step is not None:
+                self.env.step = step
 
     # ------------------------------------------------------------------ protocol
     def digest(self):
@@ -447,7 +477,11 @@ class LineWorld:
             if tg[0].time > env.now:
                 pos += ['end', 'mid']
             pos = [p for p in pos if p in self.positions]
+            first = self.spec.get('first_op')
+            fresh = first is not None and not any(self.used)
             for i in range(len(self.ops)):
+                if fresh and i != first:
+                    continue       # this job covers the executions whose FIRST injected operation is `first`
                 lim = self.op_limits[i]
                 if lim is not None and self.used[i] >= lim:
                     continue
